@@ -192,9 +192,14 @@ impl IterativeQuery {
     /// Visit explicitly given addresses, and add them to the visited set.
     /// only used from the Rpc when calling bootstrapping nodes.
     pub fn visit(&mut self, socket: &mut KrpcSocket, address: SocketAddrV4) {
+        // Ask an address once per lookup, also when it is given twice, for example as
+        // a routing table candidate and as one of the bootstrapping nodes.
+        if !self.visited.insert(address) {
+            return;
+        }
+
         let tid = socket.request(address, self.request.clone());
         self.inflight_requests.push(tid);
-        self.visited.insert(address);
     }
 
     /// Return true if a response (by transaction_id) is expected by this query.
